@@ -35,7 +35,16 @@ def run(ctx):
     ctx.coverage["corpus_programs"] = run_py_corpus(ctx)
     engine_check(ctx, PROFILE, 800, 20000, nontrivial, monitor=c02_monitor, tag="C02s", mutate=gen.late_listeners, share=0.62)
     cov1 = dict(ctx.coverage)
-    engine_check(ctx, PROFILE_ASYNC, 300, 8000, nontrivial, monitor=c02_monitor, tag="C02a", mutate=gen.late_listeners)
+    engine_check(ctx, PROFILE_ASYNC, 300, 8000, nontrivial, monitor=c02_monitor, tag="C02a", mutate=gen.late_listeners,
+                 share=0.6)
+    # names offered by several providers, listeners that provide *named* callbacks attached late (C12's generator)
+    from props.c12 import mutate as providers_and_late
+    cov_a = dict(ctx.coverage)
+    engine_check(ctx, PROFILE, 250, 5000, nontrivial, monitor=c02_monitor, tag="C02l", mutate=providers_and_late)
+    for k in ("evaluations", "distinct_nontrivial", "traces_validated_against_impl", "disagreements", "monitor_failures"):
+        ctx.coverage[k] = ctx.coverage.get(k, 0) + cov_a.get(k, 0)
+    ctx.coverage["distribution_late_named"] = ctx.coverage.get("distribution")
+    ctx.coverage["distribution"] = cov_a.get("distribution")
     for k in ("evaluations", "distinct_nontrivial", "traces_validated_against_impl", "disagreements", "monitor_failures"):
         ctx.coverage[k] = ctx.coverage.get(k, 0) + cov1.get(k, 0)
     ctx.coverage["distribution_sync"] = cov1.get("distribution")
